@@ -151,9 +151,17 @@ def icpt_script(rng, d, nb, big=False, fec=True, level="icpt", nstreams=1, other
         dd = d if s == 1 or not others else rng.choice(others)
         lens = lens_for(rng, big)
         seq = dd["base"]
-        for _ in range(nb):
+        for bi in range(nb):
             st["batches"].append({"n": d["n"], "pkts": concrete_batch(rng, dd, lens, seq)})
-            if level == "icpt" and nstreams == 1 and rng.random() < 0.3:
+            if level == "icpt" and d["k"] > 2 and bi + 1 < nb and rng.random() < 0.25:
+                # the application skips a number inside this batch (the encoder refuses a batch that is not consecutive and
+                # nothing is stated about it) - the batches AFTER it are consecutive again and must be protected as ever
+                pk = st["batches"][-1]["pkts"]
+                j = rng.randrange(1, len(pk))
+                for x in pk[j:]:
+                    x["seq"] = (x["seq"] + 1) % 65536
+                seq = (seq + 1) % 65536
+            elif level == "icpt" and nstreams == 1 and rng.random() < 0.3:
                 # the next writer refuses ONE of the packets it is given during this batch (a media packet - sometimes the one
                 # that completes the batch - or a repair packet): the others must still be sent
                 st["batches"][-1]["failat"] = rng.choice([1, d["k"], d["k"], d["k"] + 1, d["k"] + d["n"]])
